@@ -66,6 +66,16 @@ build_race() {
   go build -race -overlay "$BUILD/overlay.json" -tags verif -o "$BUILD/mc-race" ./cmd/mc 2> "$BUILD/race.err" || { echo "NOTE: race-enabled build failed:"; head -3 "$BUILD/race.err"; rm -f "$BUILD/mc-race"; return 1; }
 }
 
+# build_q: engine Q - a test binary built with go1.26.8 (testing/synctest) around the
+# unmodified package; optional (C03 says so in its evidence when it is missing)
+build_q() {
+  gen_overlay
+  command -v go1.26.8 >/dev/null || return 1
+  ( cd "$HERE/harnessq" || exit 1
+    [ "$REPO" != /repo ] && go1.26.8 mod edit -replace "github.com/jrhy/mast=$REPO"
+    go1.26.8 test -c -overlay "$BUILD/overlay.json" -tags verif -vet=off -o "$BUILD/q.test" . ) 2> "$BUILD/q.err" || { echo "NOTE: engine Q does not build:"; head -3 "$BUILD/q.err"; rm -f "$BUILD/q.test"; return 1; }
+}
+
 # conformance of the instrumenter: with the pass-through runtime the instrumented
 # package must pass the repository's own root-package tests.
 sched_conformance() {
@@ -121,6 +131,7 @@ case "${1:-}" in
       if sched_conformance; then echo "engine S: instrumented package passes the repository's tests in pass-through mode"; else echo "WARNING: instrumented package fails the repository's tests (see $BUILD/conformance.log)"; fi
     fi
     build_race && echo "race-enabled binary built"
+    build_q && echo "engine Q (go1.26.8 synctest) binary built"
     echo "setup ok"
     ;;
   replay)
@@ -137,6 +148,7 @@ case "${1:-}" in
     build_mc || exit 2
     export VERIF_TIER="${2:-quick}"
     if [ "$1" = C11 ]; then build_race; fi
+    if [ "$1" = C03 ]; then build_q; fi
     if build_sched; then
       if [ "$VERIF_TIER" = thorough ] && ! sched_conformance; then
         echo "NOTE: instrumented package fails the repository's own tests in pass-through mode; engine S not used"
